@@ -391,7 +391,7 @@ func (cs *caseState) checkRequest(st *reqState) (fs []finding, inconclusive stri
 func (cs *caseState) checkErrH(fs *[]finding, st *reqState, ob obs, statusKnown bool, why string) {
 	o := cs.spec.Opts
 	feat := cs.spec.FW + ":" + why + ":" + errHLabel(o.ErrH) + cs.featSuffix()
-	if o.ErrH == ErrHDefault {
+	if o.ErrH == ErrHDefault || o.ErrH == ErrHNil {
 		// gin+non-aborting is custom; for the default handler a later handler cannot have run
 		// unless another clause fires, so the status is the default handler's
 		if statusKnown && ob.handlerRuns == 0 && ob.status != 500 {
